@@ -1,6 +1,9 @@
 package ecdsa
 
 import (
+	"errors"
+
+	"github.com/taurusgroup/multi-party-sig/internal/cborutil"
 	"github.com/taurusgroup/multi-party-sig/pkg/math/curve"
 )
 
@@ -12,6 +15,19 @@ type Signature struct {
 // EmptySignature returns a new signature with a given curve, ready to be unmarshalled.
 func EmptySignature(group curve.Curve) Signature {
 	return Signature{R: group.NewPoint(), S: group.NewScalar()}
+}
+
+// UnmarshalCBOR restores a signature (initialized with EmptySignature); data without a usable (R, S) pair is
+// reported as an error instead of yielding an empty signature.
+func (sig *Signature) UnmarshalCBOR(data []byte) error {
+	type plain Signature
+	if err := cborutil.Unmarshal(data, (*plain)(sig)); err != nil {
+		return err
+	}
+	if sig.R == nil || sig.S == nil || sig.R.IsIdentity() || sig.S.IsZero() {
+		return errors.New("signature: R or S is missing or zero")
+	}
+	return nil
 }
 
 // Verify is a custom signature format using curve data.
